@@ -624,6 +624,19 @@ def drv_misuse(doc, args, inst):
         'amen_solve_square': lambda: tt.solvers.amen_solve(r([(2, 3), (3, 3)]), r([3, 3])),
         'amen_solve_shape': lambda: tt.solvers.amen_solve(r([(2, 2), (3, 3)]), r([2, 4])),
         'riemann_kinds': lambda: tt.manifold.riemannian_projection(r([2, 3]), r([(2, 2), (3, 3)])),
+        'fast_matvec_shape': lambda: r([(2, 2), (3, 3)]).fast_matvec(r([2, 1])),
+        'fast_matvec_order': lambda: r([(2, 2), (3, 3)]).fast_matvec(r([2, 3, 2])),
+        'mprod_list_len': lambda: r([2, 3]).mprod([tn.randn(4, 2, dtype=tn.float64)], [0, 1]),
+        'getitem_ttm_odd': lambda: r([(2, 2), (3, 3)])[0, 0, 0, 0, 0],
+        'amen_mm_types': lambda: tt.amen_mm(r([(2, 2), (3, 3)]), 3),
+        'amen_mm_kinds': lambda: tt.amen_mm(r([(2, 2), (3, 3)]), r([2, 3])),
+        'amen_mm_shape': lambda: tt.amen_mm(r([(2, 2), (3, 3)]), r([(2, 2), (1, 3)])),
+        'amen_mm_order': lambda: tt.amen_mm(r([(2, 2), (3, 3)]), r([(2, 2)])),
+        'cat_dim_range': lambda: tt.cat((r([2, 3]), r([2, 3])), 2),
+        'cat_dim_negative': lambda: tt.cat((r([2, 3]), r([2, 3])), -3),
+        'hadamard_types': lambda: tt.dmrg_hadamard(r([2, 3]), 3),
+        'hadamard_kinds': lambda: tt.dmrg_hadamard(r([2, 3]), r([(2, 2), (3, 3)])),
+        'hadamard_order': lambda: tt.dmrg_hadamard(r([2, 3]), r([2, 3, 2])),
     }
     if case not in calls:
         return []
